@@ -19,10 +19,12 @@ import (
 	"io"
 	"path/filepath"
 	"strings"
+	"sync"
 	"testing"
 	"time"
 
 	"github.com/lestrrat-go/jwx/v2/jwk"
+	"github.com/nats-io/nats.go"
 	ssi "github.com/nuts-foundation/go-did"
 	"github.com/nuts-foundation/go-did/did"
 	"github.com/nuts-foundation/go-stoabs"
@@ -31,6 +33,7 @@ import (
 	"github.com/nuts-foundation/nuts-node/core"
 	nutsCrypto "github.com/nuts-foundation/nuts-node/crypto"
 	"github.com/nuts-foundation/nuts-node/crypto/hash"
+	"github.com/nuts-foundation/nuts-node/events"
 	"github.com/nuts-foundation/nuts-node/network"
 	"github.com/nuts-foundation/nuts-node/network/dag"
 	"github.com/nuts-foundation/nuts-node/storage"
@@ -48,6 +51,10 @@ type c19DocCase struct {
 	Seed int       `json:"seed"`
 	Mode string    `json:"mode"` // create | update
 	Plan c19x.Plan `json:"plan"`
+	// Route is the production entry point that delivers the document to the ambassador:
+	// "network" (default, also for replay files written before the field existed) = handleNetworkEvent(dag.Event), the DAG
+	// subscriber; "reprocess" = handleReprocessEvent(*nats.Msg), the REPROCESS stream subscriber.
+	Route string `json:"route,omitempty"`
 }
 
 type c19Provider struct {
@@ -150,8 +157,63 @@ func c19DocGen(t *rapid.T) c19DocCase {
 	return c19DocCase{
 		Seed: rapid.IntRange(0, 2).Draw(t, "seed"),
 		Mode: rapid.SampledFrom([]string{"create", "create", "update"}).Draw(t, "mode"),
-		Plan: c19x.GenPlan(t, c19DocKeys),
+		Plan:  c19x.GenPlan(t, c19DocKeys),
+		Route: rapid.SampledFrom([]string{"network", "network", "reprocess"}).Draw(t, "route"),
 	}
+}
+
+// c19NATS is an embedded NATS server (the events engine's own test manager), one per process: handleReprocessEvent acks
+// the message first and returns when that fails, so it needs a message that is really bound to a JetStream subscription.
+type c19NATS struct {
+	js  nats.JetStreamContext
+	sub *nats.Subscription
+	err error
+}
+
+var (
+	c19NATSOnce sync.Once
+	c19TheNATS  *c19NATS
+)
+
+func c19GetNATS(x *h.Ctx) *c19NATS {
+	c19NATSOnce.Do(func() {
+		n := &c19NATS{}
+		c19TheNATS = n
+		defer func() {
+			if r := recover(); r != nil {
+				n.err = fmt.Errorf("embedded NATS: %v", r)
+			}
+		}()
+		em := events.NewTestManager(x.TB.(*testing.T))
+		_, js, err := em.Pool().Acquire(context.Background())
+		if err != nil {
+			panic(err)
+		}
+		if _, err = js.AddStream(&nats.StreamConfig{Name: "VERIFC19", Subjects: []string{"VERIFC19.*"}, Storage: nats.MemoryStorage, MaxMsgs: 100, Discard: nats.DiscardOld}); err != nil {
+			panic(err)
+		}
+		sub, err := js.SubscribeSync("VERIFC19.doc", nats.BindStream("VERIFC19"), nats.ManualAck(), nats.AckExplicit(), nats.DeliverNew())
+		if err != nil {
+			panic(err)
+		}
+		n.js, n.sub = js, sub
+	})
+	if c19TheNATS.err != nil {
+		x.Fatalf("%v", c19TheNATS.err)
+	}
+	return c19TheNATS
+}
+
+// c19ReprocessMsg publishes the transaction+payload the way network.Reprocess does and fetches the bound message.
+func c19ReprocessMsg(x *h.Ctx, tx dag.Transaction, payload []byte) *nats.Msg {
+	n := c19GetNATS(x)
+	data, err := json.Marshal(events.TransactionWithPayload{Transaction: tx, Payload: payload})
+	x.NoErr(err, "marshal TransactionWithPayload")
+	_, err = n.js.Publish("VERIFC19.doc", data)
+	x.NoErr(err, "publish reprocess message")
+	msg, err := n.sub.NextMsg(5 * time.Second)
+	x.NoErr(err, "fetch reprocess message")
+	return msg
 }
 
 type c19DocFix struct {
@@ -252,12 +314,45 @@ func c19DocRun(x *h.Ctx, c c19DocCase) {
 		}
 	})
 
+	route := c.Route
+	if route != "reprocess" {
+		route = "network"
+	}
+	x.Class("route=" + route)
+	var msg *nats.Msg
+	if route == "reprocess" {
+		c19x.Setup(x, "reprocess message", func() { msg = c19ReprocessMsg(x, tx, payload) })
+	}
 	before := f.digest()
 	var err error
-	if !c19x.Guard(x, func() { err = f.amb.callback(tx, payload) }) {
-		return
+	if route == "network" {
+		// the DAG subscriber ("vdr" notifier of the network engine)
+		if !c19x.GuardAs(x, ":route=network", func() {
+			_, err = f.amb.handleNetworkEvent(dag.Event{Type: dag.PayloadEventType, Hash: tx.Ref(), Transaction: tx, Payload: payload})
+		}) {
+			return
+		}
+	} else {
+		// the REPROCESS stream subscriber: no result, errors are only logged
+		if !c19x.GuardAs(x, ":route=reprocess", func() { f.amb.handleReprocessEvent(msg) }) {
+			return
+		}
 	}
 	after := f.digest()
+	if route == "reprocess" {
+		// acceptance is only visible in the store on this route (class only; the reject => unchanged oracle runs on the network route)
+		if strings.Contains(after, "iterate-error=") {
+			x.Violate("didnuts-store-unreadable:"+c.Mode+":route=reprocess", "after handleReprocessEvent the DID store cannot be iterated: %s", after[strings.Index(after, "iterate-error="):])
+			return
+		}
+		if before != after {
+			x.Class("reprocess:store-changed(accepted)")
+			c19x.GuardAs(x, ":route=reprocess", func() { c19DocConsumers(x, f, id, tx) })
+		} else {
+			x.Class("reprocess:store-unchanged")
+		}
+		return
+	}
 	if strings.Contains(after, "iterate-error=") {
 		x.Class("store-unreadable-after-callback")
 		x.Violate("didnuts-store-unreadable:"+c.Mode, "after callback (err=%v) the DID store cannot be iterated: %s", err, after[strings.Index(after, "iterate-error="):])
